@@ -13,7 +13,7 @@ class C16(vlib.Spec):
     theorems = ["C16_fifo_exactly_once", "C16_history_faithful", "C16_closure_consistent",
                 "C16_no_strand", "C16_waiting_implies_runnable", "C16_no_strand_refuted",
                 "C16_no_strand_spurious_refuted", "C16_no_strand_cancel_refuted",
-                "C16_no_rx_strand", "C16_no_rx_strand_refuted"]
+                "C16_no_rx_strand", "C16_no_rx_strand_refuted", "C16_fix_no_strand"]
     crate, group, binary = "h_chan", "dfir", "h_chan"
     imports = ("From Coq Require Import List NArith.\nImport ListNotations.\n"
                "From HV Require Import Chan.Base Chan.ModelMpsc Chan.ModelMpscChk.")
